@@ -103,6 +103,9 @@ void ezc3d::c3d::readFile(unsigned int nByteToRead, char * c, int nByteFromPrevi
     if (pos != 1)
         this->seekg (nByteFromPrevious, pos); // Move to number analogs
     this->read (c, nByteToRead);
+    // If the end of the file was reached, the rest of the buffer was not filled, set it to 0
+    for (unsigned int i = static_cast<unsigned int>(gcount()); i < nByteToRead; ++i)
+        c[i] = '\0';
     c[nByteToRead] = '\0'; // Make sure last char is NULL
 }
 
